@@ -256,7 +256,9 @@ def run(ctx):
             generated_parts_distinct_attribute_sets=len(gen_attr_sets),
             corpus_parts_checked=n_parts,
             corpus_instructions_with_attributes=n_nontrivial,
-            explanation="every transition is a real transform_insn call replayed from S0 in a forked child; the corpus half compiles every accepted instruction from the same fresh state",
+            explanation="every transition is a real transform_insn call replayed from S0 in a forked child; besides the search with state merging, every history of length 2 is run without merging (it does not rely on the state digest); "
+            "the alphabet includes one instruction name (and the names the extension folds onto it) used with different behaviours; the corpus half compiles every accepted instruction from the same fresh state; "
+            "the generated half compiles parts with every destination spelling (operand letters, explicit registers, pairs, 16 aliases) x assignment form, every .new spelling, all load / store helpers, jumps and plain parts in 6 contexts, and ordered pairs of class representatives",
         ),
         assumptions=["the attribute function of vf/attrs.py is the property's definition (COND iff an if statement, NEW iff a .new operand occurs, MEM_READ/WRITE iff mem_load/mem_store, BRANCH iff JUMP, WPRED iff a predicate register is assigned, WRITE_Pn for explicitly numbered ones)"],
     )
